@@ -87,6 +87,16 @@ CHECKS = {
              "against non-reentrant, reentrant (per-buffer yylineno) and c99 scanners and compared token by token (labelled with the "
              "buffer) with the extracted model; yy_scan_buffer is probed with unterminated buffers.",
         design="DESIGN.md section 6 C11", technique="machine-checked proof (Rocq) of buffer independence + differential histories"),
+    "C13": dict(
+        category="proof",
+        text="PARTIAL. Rocq theorems: C13_*_lookups_in_range (for tables passing the extracted range check, the compressed / full / "
+             "-CF / REJECT interpreters never index outside yy_ec, yy_meta, yy_base, yy_def, yy_nxt, yy_chk, yy_accept, yy_acclist for ANY "
+             "input byte sequence) and C13_ledger_sound (a trace of yyalloc/yyrealloc/yyfree calls accepted by the extracted checker "
+             "frees every block exactly once, passes only live blocks to yyfree/yyrealloc and ends with nothing allocated). The range "
+             "check runs on the tables of every generated scanner; buffer histories (incl. yylex_destroy followed by reuse) and "
+             "stream-editing programs run under ASan+LSan+UBSan with logging allocators whose traces go through the proved ledger "
+             "checker. Not proved: absence of undefined behaviour in the C text of the skeleton beyond table lookups and the ledger.",
+        design="DESIGN.md section 6 C13", technique="machine-checked proof (Rocq) of index ranges and of the allocation-ledger checker + sanitizer-instrumented differential runs"),
     "C15": dict(
         text="Rocq theorems about the documented file format (coq/Codec.v): C15_table_round_trip (id, flags, hilen, lolen, big-endian "
              "data of the flagged width, zero padding: decode(encode t ++ rest) = (t, rest)), C15_tables_are_64bit_aligned, "
